@@ -628,11 +628,11 @@ fn gen_style(src: &mut Src, k: &Knobs, extent: u32, open_shape: bool) -> StyleSp
         4 => 3,
         5 => {
             // around the size of the shape: fill area collapses
-            let e = extent.min(64) as i32;
+            let e = extent.min(280) as i32;
             (e / 2 + src.sym(2)).max(0) as u32
         }
         6 => {
-            let e = extent.min(64) as i32;
+            let e = extent.min(280) as i32;
             (e + src.sym(2)).max(0) as u32
         }
         _ => src.draw(k.max_width + 1),
@@ -762,29 +762,52 @@ pub fn gen_sub_area(src: &mut Src, w: u32, h: u32) -> [i32; 4] {
 
 pub fn gen_image(src: &mut Src, k: &Knobs, bits: u32, with_subs: bool) -> ImageSpec {
     let ppb = if bits < 8 { 8 / bits } else { 1 };
-    let w = match src.draw(16) {
-        0 => 0,
-        1 | 2 => 1 + src.draw(2),
-        3 | 4 | 5 => ppb + src.draw(3) - 1,
-        6 | 7 => 2 * ppb + 1,
-        _ => 1 + src.draw(20),
-    };
-    let h = match src.draw(16) {
-        0 => 0,
-        1 => 1,
-        _ => 1 + src.draw(12),
+    let huge = src.draw(64) == 63;
+    let (w, h) = if huge {
+        // rarely: rows longer than 255 pixels / bytes, more than 65535 pixels in total
+        match src.draw(4) {
+            0 => (255 + src.draw(3), 1 + src.draw(3)),
+            1 => (300, 2),
+            2 => (1 + src.draw(3), 255 + src.draw(3)),
+            _ => (260, 253),
+        }
+    } else {
+        let w = match src.draw(16) {
+            0 => 0,
+            1 | 2 => 1 + src.draw(2),
+            3 | 4 | 5 => ppb + src.draw(3) - 1,
+            6 | 7 => 2 * ppb + 1,
+            _ => 1 + src.draw(20),
+        };
+        let h = match src.draw(16) {
+            0 => 0,
+            1 => 1,
+            _ => 1 + src.draw(12),
+        };
+        (w, h)
     };
     let be = src.bool();
     let n = bytes_per_row(w, bits) * h as usize;
-    let mode = src.draw(4);
     let mut data = Vec::with_capacity(n);
-    for i in 0..n {
-        data.push(match mode {
-            0 => src.draw(256) as u8,
-            1 => 0xFF,
-            2 => (i as u8).wrapping_mul(37).wrapping_add(11),
-            _ => src.draw(256) as u8,
-        });
+    if n > 600 {
+        // large buffers come from a formula seeded by two draws (keeps the tape short)
+        let a = 1 + 2 * src.draw(128) as u32;
+        let b = src.draw(256) as u32;
+        let mut x = b;
+        for i in 0..n {
+            x = x.wrapping_mul(1664525).wrapping_add(1013904223 ^ a);
+            data.push(((x >> 24) as u8) ^ (i as u8).wrapping_mul(a as u8));
+        }
+    } else {
+        let mode = src.draw(4);
+        for i in 0..n {
+            data.push(match mode {
+                0 => src.draw(256) as u8,
+                1 => 0xFF,
+                2 => (i as u8).wrapping_mul(37).wrapping_add(11),
+                _ => src.draw(256) as u8,
+            });
+        }
     }
     let mut subs = Vec::new();
     if with_subs {
